@@ -24,6 +24,10 @@ claimed = {
    "Narrow: decides structural necessary conditions only — writers of Job.offsets (commit with the event's own offset, forward only, ignoring pre-truncation events; truncation 0; load), Job lock table, only the saver (or the pre-start operator reset) touches the offsets files, sync-mode save after every stored offset / async saver goroutine / save on stop, resume from the minimum saved stream offset and PassEvent refusing exactly offset<=saved. Nothing about kill instants, rotation or truncation histories is decided."),
  "C07": ("CFG success-edge ordering (write -> fsync -> rename) with interprocedural durable-helper summaries, def-use of file names, lock-region check of the snapshot, writer/reader token agreement, raw-name taint into the line format", "§3 C07",
    "Decides structural necessary conditions of an always-loadable offsets file: every rename onto an offsets file only behind the success edges of write and fsync of the same temp file (both savers), temp != live, single writer, snapshot under each job's lock and the saver's mutex, writer tokens = reader tokens, raw names reaching the line format (known finding K3). It does not decide load(save(x)) = x."),
+ "C10": ("constant agreement between sibling pack/unpack functions, def-use provenance of the commit mark, who-may-call on kgo MarkCommit*, range-index agreement of the topic table, statefulness check of Commit for spread inputs", "§3 C10",
+   "Decides structural necessary conditions of the Kafka commit contract: pack/unpack shift/mask agreement and +1, mark provenance (event's own id/offset, config.Topics[index]), topic index = position in config.Topics, marks only in InputPlugin.Commit, and the spread+stateless-Commit combination (known finding K2). It does not decide that the head never passes an unfinished record under a concrete schedule."),
+ "C16": ("lock-region dataflow with wrapper summaries over the limiter and limiter-map state, dominance of add before get with equal index arguments, def-use of the map key, control dependence of the rule loop", "§3 C16",
+   "Thin: decides only that in-memory limiter state is touched inside lock()/unlock(), add precedes get for the same bucket/distribution and the verdict is value<=limit, the limiter map is accessed under its mutex with a key built from rule part and throttle key, and the first matching rule decides. No counting clause of the statement is decided; redis backend out of scope."),
 }
 NA = {
  "C06": "the claim is an equation between runtime byte positions (offset = start + scanned) for every content, buffer size and append split; no sound static argument in reach bounds it, and the only structural proxies are matches on one loop's arithmetic (a frozen fragment)",
